@@ -312,7 +312,9 @@ def model_rename_sequence(proto, opts):
     def inlinable(n):
         if not (opts["inline_const"] and n.op_type == "Constant" and n.attribute and n.attribute[0].HasField("t")):
             return False
-        t = n.attribute[0].t
+        return inlinable_tensor(n.attribute[0].t)
+
+    def inlinable_tensor(t):
         if not (t.data_type in (TP.FLOAT, TP.INT64) and (len(t.dims) == 0 or (len(t.dims) == 1 and t.dims[0] < 5))):
             return False
         if vr["nonempty_only"] and list(t.dims) == [0]:
@@ -381,6 +383,13 @@ def model_rename_sequence(proto, opts):
         for x in n.input:
             ref(x)
 
+    for init in proto.graph.initializer:  # _translate_graph_body: the initializers first
+        if opts["skip_initializers"] and int(np.prod(list(init.dims) or [1])) > 4:
+            var(init.name)
+        elif opts["inline_const"] and inlinable_tensor(init):
+            consts.add(init.name)  # C13_02: recorded under the ONNX name
+        else:
+            var(init.name)
     body(proto.graph.node)
     for o in proto.graph.output:
         src(o.name)
@@ -418,13 +427,10 @@ def in_scope(case, opts):
             raise OutOfScope("skip_initializers without a large initializer (known finding: indented source)")
         if any(i.data_type not in (TP.FLOAT, TP.INT8) for i in large):
             raise OutOfScope("skip_initializers: large initializer of a type generate_rand refuses")
-    if opts["rename"] and is_model and proto.graph.initializer:
+    vr = VR.detect()
+    if opts["rename"] and is_model and proto.graph.initializer and not (vr["init_raw_key"] and vr["sig_renamed"]):
         raise OutOfScope("rename=True on a model with initializers (the twice-renamed Constant needs the mapper's state)")
-    if VR.detect()["unique_names"]:
-        names = G.all_names(proto)
-        from onnxscript.backend import onnx_export as E
-        if len({E._cleanup_variable_name(n) for n in names}) != len(set(names)):
-            raise OutOfScope("unique-name repair (C13_07) on a model whose names collide after clean-up: suffixes not modelled")
+    M.init_collision_guard(proto)
     graph_lit(proto)
     ivals_lit(proto)
 
@@ -443,17 +449,14 @@ def observe(case, opts):
     return {"func": f"(Some ({lit}, {clist(skipped, cstr)}))", "code": code, "statements": nst, "raised": None}
 
 
-def coq_terms(case, opts):
+def coq_terms(case, opts, prelude=None, tag="0"):
     proto = case["proto"]
     is_model = isinstance(proto, onnx.ModelProto)
     raw_name = proto.graph.name if is_model else proto.name
     clean = "(cleanup kwlist)"
-    if opts["rename"]:
-        seq = model_rename_sequence(proto, opts) if is_model else M.renamer_sequence(proto)
-        ren = f"(short_map kwlist {clist(seq, cstr)})"
-        pre = clean if (is_model and not VR.detect()["sig_renamed"]) else ren
-    else:
-        ren = pre = clean
+    seq = model_rename_sequence(proto, opts) if is_model else M.renamer_sequence(proto)
+    ren = M.rename_term(proto, opts["rename"], seq, prelude, tag)
+    pre = clean if (is_model and not VR.detect()["sig_renamed"]) else ren
     # C13_01: a model graph is translated inside a remapping scope, like a function body
     return pre, ren, f"(cleanup kwlist {cstr(raw_name)})", ivals_lit(proto), graph_lit(proto), cbool(not is_model or VR.detect()["model_scope"])
 
@@ -472,7 +475,7 @@ def coq_body(items):
     forms / If counts seen by the model (coverage)."""
     lines = []
     for k, (case, opts, obs) in enumerate(items):
-        pre, ren, fname, iv, g, infun = coq_terms(case, opts)
+        pre, ren, fname, iv, g, infun = coq_terms(case, opts, lines, str(k))
         lines.append(f"Definition g{k} : graph := {g}.")
         lines.append(f"Definition iv{k} : list (vname * attrv) := {iv}.")
         use_ops, inline = option_terms(opts)
@@ -489,7 +492,7 @@ def coq_body(items):
 
 
 OKB = "nested_okb"
-REQUIRES = ["OV.Gen.ExportTables", "OV.Export.Cleanup", "OV.Graph.Syntax", "OV.Script.Syntax", "OV.Export.Emit", "OV.Export.EmitCF"]
+REQUIRES = ["OV.Gen.ExportTables", "OV.Export.Cleanup", "OV.Export.Unique", "OV.Graph.Syntax", "OV.Script.Syntax", "OV.Export.Emit", "OV.Export.EmitCF"]
 
 
 # ----------------------------------------------------------------------------------------------- hand-made nested models
